@@ -544,12 +544,13 @@ class Inherit(Family):
 
     def alphabet(self):
         return [q("q-derived-top", "Sub", "a"), q("q-base-top", "Base", "a"), q("q-overriding-sub-top", "Sub2", "a"),
-                q("q-derived-leaf", "Sub", "b"),
+                ("q-derived-leaf", "query", lambda st: Q("Sub", "b") if _alive(st, "Base", "b") and "Sub" not in st["unbased"] else None),
                 e_formula("formula-base-leaf", "Base", "b", [self.B2]), e_setref("set-ref-base", "Base", "r", 6),
                 e_setref("set-ref-override-in-sub", "Sub", "r", 7), e_flip("flip-base-leaf", "Base", "b"),
                 ("input-derived-leaf", "edit", lambda st: ("input", "Sub", "b", (), 50)
                  if _alive(st, "Base", "b") and _cached(st, "Base", "b") and "Sub" not in st["unbased"] else None), e_del("del-base-leaf", "Base", "b"),
-                e_clear("clear-derived-leaf", "clear", "Sub", "b"),
+                ("clear-derived-leaf", "edit", lambda st: ("clear", "Sub", "b")
+                 if _alive(st, "Base", "b") and "Sub" not in st["unbased"] else None),
                 ("override-formula-in-sub", "edit", lambda st: ("setformula", "Sub", "a", F("a", "", "b() + r + 1", "a", "()", "(_space.fullname + '.r',)"))
                  if ("Sub", "a") not in st["overridden"] else None),
                 ("remove-base", "edit", lambda st: ("raw", "m.Sub.remove_bases(m.Base)") if "Sub" not in st["unbased"] else None)]
